@@ -648,6 +648,29 @@ impl Ctxt for Wide {
 }
 
 type Dyn = Arc<dyn ErasedCtxt + Send + Sync>;
+type DynRef = &'static (dyn ErasedCtxt + Send + Sync);
+
+/// The erased ctxts of three ambient slots (`emit::setup().with_ctxt(..).init_slot(&slot)`, then
+/// `slot.get().ctxt()`), initialised once per process: `shared()`, and two `new()` instances.
+fn slot_ctxts() -> Vec<DynRef> {
+    use emit::runtime::AmbientSlot;
+    static SLOTS: [AmbientSlot; 3] = [AmbientSlot::new(), AmbientSlot::new(), AmbientSlot::new()];
+    static INIT: std::sync::Once = std::sync::Once::new();
+    INIT.call_once(|| {
+        let _ = emit::setup().with_ctxt(ThreadLocalCtxt::shared()).init_slot(&SLOTS[0]);
+        let _ = emit::setup().with_ctxt(ThreadLocalCtxt::new()).init_slot(&SLOTS[1]);
+        let _ = emit::setup().with_ctxt(ThreadLocalCtxt::new()).init_slot(&SLOTS[2]);
+    });
+    SLOTS.iter().map(|s| *s.get().ctxt()).collect()
+}
+
+fn leak<T>(v: T) -> &'static T {
+    Box::leak(Box::new(v))
+}
+
+/// the wrapper / variant names a case line may carry
+pub const VARIANTS: [&str; 12] =
+    ["concrete", "erased", "boxed", "option", "assert", "assertdyn", "ref", "box", "arc", "boxdyn", "slot", "assertarc"];
 
 fn run_c03(line: &str) -> String {
     (|| -> Option<String> {
@@ -663,6 +686,24 @@ fn run_c03(line: &str) -> String {
             "erased" => run_with::<Dyn>(base.iter().map(|c| Arc::new(*c) as Dyn).collect(), prog),
             "boxed" => run_with::<Dyn>(base.iter().map(|c| Arc::new(Wide(*c)) as Dyn).collect(), prog),
             "option" => run_with::<Option<ThreadLocalCtxt>>(base.iter().map(|c| Some(*c)).collect(), prog),
+            // the forwarding wrappers: every one must be transparent
+            "assert" => run_with::<&'static emit::runtime::AssertInternal<ThreadLocalCtxt>>(
+                base.iter().map(|c| leak(emit::runtime::AssertInternal(*c))).collect(),
+                prog,
+            ),
+            "assertdyn" => run_with::<Dyn>(base.iter().map(|c| Arc::new(emit::runtime::AssertInternal(*c)) as Dyn).collect(), prog),
+            "assertarc" => run_with::<Arc<emit::runtime::AssertInternal<Arc<ThreadLocalCtxt>>>>(
+                base.iter().map(|c| Arc::new(emit::runtime::AssertInternal(Arc::new(*c)))).collect(),
+                prog,
+            ),
+            "ref" => run_with::<&'static ThreadLocalCtxt>(base.iter().map(|c| leak(*c)).collect(), prog),
+            "box" => run_with::<Box<ThreadLocalCtxt>>(base.iter().map(|c| Box::new(*c)).collect(), prog),
+            "arc" => run_with::<Arc<ThreadLocalCtxt>>(base.iter().map(|c| Arc::new(*c)).collect(), prog),
+            "boxdyn" => run_with::<&'static Box<dyn ErasedCtxt + Send + Sync>>(
+                base.iter().map(|c| leak(Box::new(*c) as Box<dyn ErasedCtxt + Send + Sync>)).collect(),
+                prog,
+            ),
+            "slot" => run_with::<DynRef>(slot_ctxts(), prog),
             _ => return None,
         })
     })()
@@ -914,7 +955,7 @@ impl<'a> Gen<'a> {
 fn gen_c03(rng: &mut Rng, tier: Tier, n: usize) -> Vec<String> {
     let mut out = Vec::with_capacity(n);
     for _ in 0..n {
-        let variant = *rng.pick(&["concrete", "concrete", "erased", "erased", "boxed", "option"]);
+        let variant = if rng.chance(1, 3) { *rng.pick(&["concrete", "erased", "boxed"]) } else { *rng.pick(&VARIANTS) };
         let nthreads = 1 + rng.below(NTHREADS as u64);
         let budget = if tier == Tier::Thorough { 20 + rng.below(60) as i64 } else { 8 + rng.below(33) as i64 };
         let mut g = Gen { rng: &mut *rng, next_f: 0, budget, max_depth: 6, nthreads };
